@@ -73,6 +73,7 @@ from exabgp.protocol.family import (
     AFI,
 )
 from exabgp.protocol.ip import IP, IPSelf, IPv4, IPv6
+from exabgp.protocol.resource import BaseValue
 from exabgp.rib.route import Route
 
 # TypeVar for flow condition classes
@@ -249,6 +250,15 @@ def _value(string: str) -> tuple[str, str]:
     return string[:ls], string[ls:]
 
 
+def _converted(klass: Type[FlowConditionT], value: str) -> BaseValue:
+    """The value of a component, which has to fit the widest encoding the component has."""
+    number: BaseValue = klass.converter(value)
+    maximum: int = (1 << (8 * max(klass.VALUE_SIZES))) - 1
+    if not 0 <= number <= maximum:
+        raise ValueError(f"'{value}' is not a valid {klass.NAME}\n  Must be 0-{maximum}")
+    return number
+
+
 # parse [ content1 content2 content3 ]
 # parse =80 or >80 or <25 or &>10<20
 def _generic_condition(tokeniser: 'Tokeniser', klass: Type[FlowConditionT]) -> Generator[FlowConditionT, None, None]:
@@ -272,7 +282,7 @@ def _generic_condition(tokeniser: 'Tokeniser', klass: Type[FlowConditionT]) -> G
             operator, _ = _operator(data)
             value: str
             value, data = _value(_)
-            yield klass(AND | operator, klass.converter(value))
+            yield klass(AND | operator, _converted(klass, value))
             if data:
                 if data[0] != '&':
                     raise ValueError('Unknown binary operator {}'.format(data[0]))
@@ -287,7 +297,7 @@ def _generic_condition(tokeniser: 'Tokeniser', klass: Type[FlowConditionT]) -> G
         while data:
             operator, _ = _operator(data)
             value, data = _value(_)
-            yield klass(operator | AND, klass.converter(value))
+            yield klass(operator | AND, _converted(klass, value))
             if data:
                 if data[0] != '&':
                     raise ValueError('Unknown binary operator {}'.format(data[0]))
